@@ -43,6 +43,10 @@ man = {
          "kind_free_text": "Rust multi-call worker binary (one sub-command per property engine) linking the real ohkami crates built from /repo with hooks on; built as rel/dbg/asan/miri/tsan variants"},
         {"name": "check", "path": "/verif/check", "serves_properties": [c["property_id"] for c in checks],
          "kind_free_text": "Python driver: builds variants, shards workers, attributes worker deaths and sanitizer reports to cases, applies known_findings.json, writes evidence"},
+        {"name": "c16gen", "path": "/verif/gen/c16gen.py", "serves_properties": ["C16"],
+         "kind_free_text": "seeded Python generator of Rust programs (type definitions deriving serde's traits and openapi::Schema, instances, requiredness probes), compiled against /repo by ./check"},
+        {"name": "judges", "path": "/verif/oracle", "serves_properties": ["C12", "C15", "C16"],
+         "kind_free_text": "independent Python judges run by ./check over what the workers / generated programs observed: jwt_judge.py (hmac/hashlib), openapi_judge.py and schema_judge.py (jsonschema Draft 2020-12, tooling venv)"},
     ],
     "checks": checks,
     "not_applicable": na,
